@@ -2,6 +2,7 @@ import PV.C13.Thm
 import PV.C13.ParsedBridge
 import PV.C13.ParsedConf
 import PV.C13.POrdExpr
+import PV.C13.POrdProg
 import PV.C02.RProgThm
 /-
   C13 — the property's first two sentences for the trees the PARSER produces, at model level.
@@ -107,6 +108,70 @@ example : LineStartsOk richSrc := validUtf8_lineStartsOk (by decide)
 example : richMod.map (fun m => decide ((offsT (toTree false m)).Pairwise (· ≤ ·))) = some false := by decide +kernel
 example : richMod.map (fun m => decide (SrcOrdered realCfg richSrc (toTree false m))) = some true := by decide +kernel
 
+/-! ### the trees the PARSER (model) produces -/
+
+instance (src : List Nat) (toks : List RPTok) : Decidable (TiledP src toks) := by
+  unfold TiledP Tiled; exact inferInstance
+
+/-- **Every node of a parse has its fields, in fold order, in source order.**  For every source, every token list
+    whose spans tile it (what C05 proves of the lexer model: `tiledP_of_lexer`), every mode: if the program-parser model
+    accepts and the tree has no f-string piece, then `ordM m` — by induction over all 43 functions of the expression
+    parser (`ordAt`) and every function of the program parser (`parseRProgram_ordM`). -/
+theorem parsed_ordM {src : List Nat} {toks : List RPTok} (ht : TiledP src toks) {mode : PV.Prog.Mode} {m : RMod}
+    (hp : parseRProgram mode toks = some m) (hpl : plainM m = true) : ordM m = true :=
+  parseRProgram_ordM ht (fun f => ordAt (tiledTab_of_tiledP ht) f) hp hpl
+
+/-- **Parser-produced trees are `SrcOrdered`** (default build `ar = false`, and with `all-nodes-with-ranges`), provided
+    their offsets are positions the locator accepts (`OffsOk`: on character boundaries — which C02's
+    `parseRProgram_rangesOk_partial` gives —, not between a CR and its LF, not inside a leading BOM). -/
+theorem parsed_tree_srcOrdered (ar : Bool) {src : List Nat} {toks : List RPTok} (ht : TiledP src toks)
+    {mode : PV.Prog.Mode} {m : RMod} (hp : parseRProgram mode toks = some m) (hpl : plainM m = true)
+    (hk : OffsOk src (toTree ar m)) : SrcOrdered realCfg src (toTree ar m) :=
+  srcOrdered_of_ordM ar (parsed_ordM ht hp hpl) hk
+
+/-- The calls `LinearLocator::fold` makes on a parsed tree form a forward history. -/
+theorem parsed_tree_history_forward (ar : Bool) {src : List Nat} {toks : List RPTok} (ht : TiledP src toks)
+    {mode : PV.Prog.Mode} {m : RMod} (hp : parseRProgram mode toks = some m) (hpl : plainM m = true)
+    (hk : OffsOk src (toTree ar m)) :
+    ∃ h, locHistory realCfg (toTree ar m) = some h ∧ Forward src (initCursor src) h :=
+  locHistory_forward_gen (toTree_conforms ar m) (parsed_tree_srcOrdered ar ht hp hpl hk)
+
+/-- **First sentence of the property for parser output (model level).**  Converting the byte ranges of a parsed tree
+    with the `LinearLocator` (either build flavour) does not panic and gives, for every node, the reference row and
+    character column of its start and of its end. -/
+theorem parsed_tree_locations_eq_spec (ar dbg : Bool) {src : List Nat} (hs : LineStartsOk src) {toks : List RPTok}
+    (ht : TiledP src toks) {mode : PV.Prog.Mode} {m : RMod} (hp : parseRProgram mode toks = some m)
+    (hpl : plainM m = true) (hk : OffsOk src (toTree ar m)) :
+    foldLocated realCfg (.linear dbg) src (toTree ar m) = some (locMap (rowCol src) (toTree ar m)) :=
+  fold_locations_eq_spec_gen dbg hs (toTree_conforms ar m) (parsed_tree_srcOrdered ar ht hp hpl hk)
+
+/-- **Second sentence.**  On a parsed tree the incremental and the indexed locator return identical results. -/
+theorem parsed_tree_linear_eq_random (ar dbg : Bool) {src : List Nat} (hs : LineStartsOk src) {toks : List RPTok}
+    (ht : TiledP src toks) {mode : PV.Prog.Mode} {m : RMod} (hp : parseRProgram mode toks = some m)
+    (hpl : plainM m = true) (hk : OffsOk src (toTree ar m)) :
+    foldLocated realCfg (.linear dbg) src (toTree ar m) = foldLocated realCfg .random src (toTree ar m) :=
+  fold_linear_eq_random_gen dbg hs (toTree_conforms ar m) (parsed_tree_srcOrdered ar ht hp hpl hk)
+
+/-- what the property asks for, for EVERY accepted program (f-strings too): stated; false as it stands
+    (`parsed_tree_srcOrdered_full_fails`: implicit concatenation of f-strings, a listed finding) -/
+def parsed_tree_srcOrdered_full : Prop :=
+  ∀ (src : List Nat) (toks : List RPTok) (mode : PV.Prog.Mode) (m : RMod), TiledP src toks →
+    parseRProgram mode toks = some m → OffsOk src (toTree false m) → SrcOrdered realCfg src (toTree false m)
+
+/-! the hypotheses hold for `richToks`, and the theorems apply to it -/
+example : TiledP richSrc richToks := by decide +kernel
+example : ∀ m, richMod = some m →
+    foldLocated realCfg (.linear true) richSrc (toTree false m) = some (locMap (rowCol richSrc) (toTree false m)) ∧
+    foldLocated realCfg (.linear false) richSrc (toTree true m) = foldLocated realCfg .random richSrc (toTree true m) := by
+  intro m hm
+  have h1 : richMod.map plainM = some true := by decide +kernel
+  have h2 : richMod.map (fun m => decide (OffsOk richSrc (toTree false m))) = some true := by decide +kernel
+  have h3 : richMod.map (fun m => decide (OffsOk richSrc (toTree true m))) = some true := by decide +kernel
+  simp only [hm, Option.map_some, Option.some.injEq, decide_eq_true_eq] at h1 h2 h3
+  have ht : TiledP richSrc richToks := by decide +kernel
+  have hs : LineStartsOk richSrc := validUtf8_lineStartsOk (by decide)
+  exact ⟨parsed_tree_locations_eq_spec false true hs ht hm h1 h2, parsed_tree_linear_eq_random true false hs ht hm h1 h3⟩
+
 /-! ### what `OffsOk` excludes: the listed finding `linear-bom-tokenless-module-all-ranges` at model level -/
 
 /-- a BOM and nothing else: no token, `Module` ranged `0..0` (C09's open finding); with `all-nodes-with-ranges` the fold
@@ -144,5 +209,16 @@ theorem fstring_findings_reproduced :
     (parseRProgram .module fcrlfToks).map (fun m => (plainM m, decide (OffsOk fcrlfSrc (toTree false m)),
       decide (SrcOrdered realCfg fcrlfSrc (toTree false m)))) = some (false, false, false) := by
   refine ⟨by decide +kernel, by decide +kernel, by decide +kernel⟩
+
+/-- the statement for every accepted program does not hold: `f'{x}' f'{y}'` (spans tiled, every offset fine) -/
+theorem parsed_tree_srcOrdered_full_fails : ¬ parsed_tree_srcOrdered_full := by
+  intro h
+  have h1 : (parseRProgram .module fconcatToks).map (fun m => (decide (OffsOk fconcatText (toTree false m)),
+      decide (SrcOrdered realCfg fconcatText (toTree false m)))) = some (true, false) := by decide +kernel
+  cases hm : parseRProgram .module fconcatToks with
+  | none => simp [hm] at h1
+  | some m =>
+    simp only [hm, Option.map_some, Option.some.injEq, Prod.mk.injEq, decide_eq_true_eq, decide_eq_false_iff_not] at h1
+    exact h1.2 (h fconcatText fconcatToks .module m (by decide +kernel) hm h1.1)
 
 end PV.C13
